@@ -394,6 +394,9 @@ def explore(F):
                     "is re-sent as new" if vis == "Gained" else "is treated as already present (no full re-send)"))
             if truth and (not had or lost) and vis != "Gained":
                 report("gain-delivers-whole-entity", "tick", "the entity is visible, the client does not hold it (or was just told to despawn it), but state() is %s, so only changes are sent" % vis)
+            if vis == "Gained" and had and not lost and "gained-while-held" not in stats:
+                # not a violation by itself (a redundant full re-send); recorded as a lemma other rules may rely on
+                stats["gained-while-held"] = "%s: %s" % (policy, " ; ".join(trace + ("tick",)))
             if (vis != "Hidden") != truth:
                 report("state-truthful-at-tick", "tick", "state() = %s although the most recent setting is visible=%s" % (vis, truth))
             work.append(((s, truth, truth), trace + ("tick",)))
